@@ -23,3 +23,21 @@ Definition mismatches (l : list case) : list nat := bad_indices case_ok l.
 
 (* the __int__ constants written by __load__ are exactly those the model requested *)
 Definition ints_ok (l : list case) (real : list Z) : bool := zset_eq (flat_map model_ints l) real.
+
+(* The head of __load__ (DataPack.build): the variable objective is always created, the
+   constant objective exactly when some statement asked for a constant — a constant whose
+   objective does not exist cannot be read (the command naming it fails). *)
+Definition load_head (nm : names) (ints : list Z) : list string :=
+  ("scoreboard objectives add " ++ var_name nm ++ " dummy") ::
+  match ints with
+  | [] => []
+  | _ => ["scoreboard objectives add " ++ int_name nm ++ " dummy"]
+  end.
+Fixpoint strs_eqb (a b : list string) : bool :=
+  match a, b with
+  | [], [] => true
+  | x :: a', y :: b' => String.eqb x y && strs_eqb a' b'
+  | _, _ => false
+  end.
+Definition load_ok (nm : names) (l : list case) (real_head : list string) (real_ints : list Z) : bool :=
+  strs_eqb (load_head nm (flat_map model_ints l)) real_head && ints_ok l real_ints.
